@@ -18,11 +18,11 @@ ID = "C13"
 RULE = ("annotated simple networks: (a) clean motif networks from the harness builder with 1..3 clique/cycle topologies, 2..4 joint-degree "
         "classes incl. self-paired classes; (b) arbitrary simple graphs (G(n,p), n<=30) with random topology labels and either consistent or "
         "arbitrary annotations (jd[i] >= 1 on incident topologies), incl. a topology with a single edge or none, names with shared prefixes; half of the networks with vertices inserted in shuffled order and/or relabelled to non-contiguous ints; "
-        "histories: 1..4 get_ejks() calls per extractor, up to 3 extractors interleaved over 1..2 graphs, plus the overall-degree variant; in 30% of the repeat calls the network is rewired in place (degree-preserving double edge swaps inside one topology) between two extractions; "
+        "histories: 1..4 get_ejks() calls per extractor, up to 3 extractors interleaved over 1..2 graphs, plus the overall-degree variant; 20% of the extractors are given only a prefix of the topology names (the excess tuples keep every slot); in 30% of the repeat calls the network is rewired in place (degree-preserving double edge swaps inside one topology) between two extractions; "
         "non-trivial = a history with >= 2 calls on one extractor and >= 2 distinct excess classes; distinct = SHA-1 of the annotated graph + history")
 ASSUMPTIONS = ["matrix entries compared at 1e-12; an absent key means 0", "the law is stated in terms of the vertex annotation, so arbitrary annotations are in scope"]
 HEADLINE = ["histories", "get_ejks_calls", "hook_hits", "matrices_compared", "entries_compared", "repeat_calls", "self_paired_entries", "overall_variant_checks",
-            "arbitrary_annotation", "builder_networks", "single_edge_topology", "in_place_rewirings", "scrambled_vertex_order_or_labels"]
+            "arbitrary_annotation", "builder_networks", "single_edge_topology", "in_place_rewirings", "scrambled_vertex_order_or_labels", "extractors_with_a_prefix_of_the_names"]
 REQUIRED = {t: {"repeat_calls": 50, "hook_hits": 100, "self_paired_entries": 50, "overall_variant_checks": 50, "arbitrary_annotation": 20,
                 "builder_networks": 20, "single_edge_topology": 5, "in_place_rewirings": 20, "scrambled_vertex_order_or_labels": 30} for t in ("quick", "thorough")}
 TOL = 1e-12
@@ -188,10 +188,16 @@ def run_case(case):
     for _ in range(rng.choice([1, 2, 3])):
         gi = rng.randrange(len(graphs))
         G, names, kind = graphs[gi]
-        ex = sut("JointExcessJointDegree(params)", gcmpy.JointExcessJointDegree, {TN.NETWORK: G, TN.EDGE_NAMES: list(names)})
-        extractors.append((gi, ex))
+        used = list(names)
+        if len(names) >= 2 and rng.random() < 0.2:
+            # a caller interested in the leading topologies only: the listed names still line up with the leading joint-degree
+            # slots, the vertices' excess tuples keep every slot
+            used = list(names[: rng.randint(1, len(names) - 1)])
+            res.count("extractors_with_a_prefix_of_the_names")
+        ex = sut("JointExcessJointDegree(params)", gcmpy.JointExcessJointDegree, {TN.NETWORK: G, TN.EDGE_NAMES: list(used)})
+        extractors.append((gi, ex, used))
     history = []
-    for x, (gi, ex) in enumerate(extractors):
+    for x, (gi, ex, _used) in enumerate(extractors):
         history += [x] * rng.choice([1, 2, 2, 3, 4])
     rng.shuffle(history)
     res.count("histories")
@@ -201,7 +207,7 @@ def run_case(case):
     classes = 0
     _hook["snaps"] = []
     for x in history:
-        gi, ex = extractors[x]
+        gi, ex, used = extractors[x]
         G, names, kind = graphs[gi]
         T = len(names)
         if calls_per[x] >= 1 and rng.random() < 0.3 and G.number_of_edges() >= 2:
@@ -231,15 +237,15 @@ def run_case(case):
         res.count("get_ejks_calls")
         res.count("hook_hits", _hook["hits"] - h0)
         calls_per[x] += 1
-        ctx = {"call_number_on_this_extractor": calls_per[x], "names": names, "graph_kind": kind,
+        ctx = {"call_number_on_this_extractor": calls_per[x], "names": names, "names_given_to_the_extractor": used, "graph_kind": kind,
                "edges": [(u, v, d[NN.TOPOLOGY]) for u, v, d in list(G.edges(data=True))[:25]],
                "joint_degrees": [G.nodes[v][NN.JOINT_DEGREE] for v in list(G.nodes())[:25]]}
         ej = sut("ejks", lambda: r.ejks)
         keys = sut("excess_degree_keys", lambda: r.excess_degree_keys)
-        if not isinstance(ej, dict) or set(ej) != set(names):
+        if not isinstance(ej, dict) or set(ej) != set(used):
             res.violate("matrices-not-keyed-by-the-topology-names", got=repr(list(ej))[:200] if isinstance(ej, dict) else repr(ej)[:100], ctx=ctx); break
         ok = True
-        for t in names:
+        for t in used:
             if not compare_matrix(res, ej[t], refs[gi][t], T, dict(ctx, topology=t)):
                 ok = False; break
             halves = {k[:T] for k in ej[t]} | {k[T:] for k in ej[t]}
